@@ -686,7 +686,7 @@ pub fn chains(a: &Args, rep: &mut Report) {
 // zero-sized elements: exhaustive enumeration of short histories
 // ------------------------------------------------------------------------------------------
 
-const ZOPS: usize = 18;
+const ZOPS: usize = 20;
 
 fn zst_apply(map: &mut griddle::HashMap<(), (), Bh>, set: &mut griddle::HashSet<(), Bh>, present: &mut (bool, bool), op: usize) -> Result<(), String> {
     let chk = |c: bool, what: &str| if c { Ok(()) } else { Err(format!("{what} disagrees with the model")) };
@@ -753,6 +753,38 @@ fn zst_apply(map: &mut griddle::HashMap<(), (), Bh>, set: &mut griddle::HashSet<
             let r = set.try_reserve(37);
             chk(r.is_ok(), "set try_reserve")?;
         }
+        18 => {
+            // more than the spare room of any table built here: a table of zero-sized elements
+            // must not be split by it either
+            let r = map.try_reserve(5000);
+            chk(r.is_ok(), "map try_reserve(5000)")?;
+            let r = set.try_reserve(5000);
+            chk(r.is_ok(), "set try_reserve(5000)")?;
+            chk(map.capacity() >= map.len() + 5000 && set.capacity() >= set.len() + 5000, "capacity after try_reserve(5000)")?;
+        }
+        19 => {
+            // requests that overflow: Err from the fallible call, the documented panic from
+            // the infallible one, contents untouched
+            for n in [usize::MAX, usize::MAX - 1, isize::MAX as usize, isize::MAX as usize + 1] {
+                let r = catch(|| map.try_reserve(n));
+                match r {
+                    Ok(Err(_)) => {}
+                    Ok(Ok(())) => return Err(format!("C10: map.try_reserve({n}) returned Ok")),
+                    Err(p) => return Err(format!("C10: map.try_reserve({n}) panicked: {p}")),
+                }
+                let r = catch(|| set.try_reserve(n));
+                match r {
+                    Ok(Err(_)) => {}
+                    Ok(Ok(())) => return Err(format!("C10: set.try_reserve({n}) returned Ok")),
+                    Err(p) => return Err(format!("C10: set.try_reserve({n}) panicked: {p}")),
+                }
+            }
+            match catch(|| map.reserve(usize::MAX)) {
+                Err(p) if p.contains("capacity overflow") => {}
+                Err(p) => return Err(format!("C10: map.reserve(usize::MAX) panicked with an undocumented message: {p}")),
+                Ok(()) => return Err("C10: map.reserve(usize::MAX) returned normally".into()),
+            }
+        }
         _ => {
             let r = match map.entry(()) {
                 griddle::hash_map::Entry::Occupied(o) => {
@@ -785,8 +817,14 @@ pub fn zst(a: &Args, rep: &mut Report) {
     let names = [
         "map.insert", "map.remove", "map.get", "map.entry.or_insert", "map.reserve(10)", "map.reserve(1000)", "map.shrink_to_fit", "map.clear", "map.retain(false)", "map.drain", "map.clone",
         "set.insert", "set.remove", "set.reserve(10)", "set.take", "set.retain(false)", "map.try_reserve(37)+set.try_reserve(37)", "map.entry.replace_entry_with(None)/insert",
+        "map.try_reserve(5000)+set.try_reserve(5000)", "try_reserve(overflowing) is Err, reserve(usize::MAX) panics",
     ];
-    for code in 0..total {
+    // C17: one transcript line per call (or one digest line per history), compared between builds
+    let mut tfile = if a.has("transcript") { Some(std::fs::File::create(a.str("transcript", "t.txt")).expect("create transcript")) } else { None };
+    let digest_only = a.u64("transcript-digest", 0) == 1;
+    let lo = a.u64("skip", 0);
+    let hi = a.map.get("n").and_then(|x| x.parse::<u64>().ok()).unwrap_or(total).min(total);
+    for code in lo..hi {
         if code % sh.count != sh.index {
             continue;
         }
@@ -802,6 +840,12 @@ pub fn zst(a: &Args, rep: &mut Report) {
         let mut present = (false, false);
         rep.evaluations += 1;
         let mut nontrivial = false;
+        let mut tlines: Vec<String> = Vec::new();
+        if let Some(f) = &mut tfile {
+            use std::io::Write as _;
+            let _ = writeln!(f, "## history {code} zst {:?}", seq);
+            let _ = f.flush();
+        }
         for (i, &op) in seq.iter().enumerate() {
             let r = catch(|| zst_apply(&mut map, &mut set, &mut present, op));
             let err = match r {
@@ -809,12 +853,18 @@ pub fn zst(a: &Args, rep: &mut Report) {
                 Ok(Err(e)) => Some(e),
                 Ok(Ok(())) => None,
             };
+            if tfile.is_some() {
+                tlines.push(format!("{} => {} len={}/{} cap={}/{} split={}", names[op], err.as_deref().unwrap_or("ok"), map.len(), set.len(), map.capacity(), set.capacity(), (present.0 || present.1) as u8));
+            }
             if present.0 || present.1 {
                 nontrivial = true;
             }
             if let Some(e) = err {
                 let hist: Vec<&str> = seq[..=i].iter().map(|x| names[*x]).collect();
                 let mut prop = if op >= 11 && op <= 15 { "C13" } else { "C01" };
+                if e.starts_with("C10:") || (op == 18 && rep.prop == "C10") {
+                    prop = "C10";
+                }
                 // a retain that cannot complete on a zero-sized map / set is C09's finding as well
                 if (op == 8 || op == 15) && rep.prop == "C09" {
                     prop = "C09";
@@ -831,6 +881,21 @@ pub fn zst(a: &Args, rep: &mut Report) {
                 std::mem::forget(std::mem::replace(&mut set, griddle::HashSet::with_hasher(Bh::default())));
                 break;
             }
+        }
+        if let Some(f) = &mut tfile {
+            use std::io::Write as _;
+            let mut t = String::new();
+            if digest_only {
+                t.push_str(&format!("d {:016x} split={}\n", digest(tlines.iter().flat_map(|l| l.bytes().map(|b| b as u64))), nontrivial as u8));
+            } else {
+                for l in &tlines {
+                    t.push_str(l);
+                    t.push('\n');
+                }
+            }
+            t.push_str("## end ok\n");
+            let _ = f.write_all(t.as_bytes());
+            let _ = f.flush();
         }
         if nontrivial {
             rep.nontrivial.insert(code);
